@@ -4,6 +4,7 @@ import (
 	"fmt"
 	"go/token"
 	"go/types"
+	"sort"
 	"strings"
 
 	"golang.org/x/tools/go/ssa"
@@ -25,6 +26,132 @@ func runC09(c *engine.Ctx) {
 	checkTruePortChain(c, "R3")
 	checkRemoteAddrAnswer(c)
 	checkQuota(c, "R5")
+	checkPortBookkeeping(c, "R6")
+}
+
+// checkPortBookkeeping (R6): (a) the reservation remembers the granted port: every store to PortCtx.Port inside
+// Manager.Acquire writes Acquire's own first result (for a server-chosen port the requested port is 0, and a
+// reservation of 0 never gives the previous port back); (b) a proxy type talks to one port manager: all Acquire and
+// Release calls made by the methods (and closures) of one receiver type go through the same manager field, and the UDP
+// proxy uses the UDP manager (a release sent to the sibling manager leaks the port here and frees a live one there).
+func checkPortBookkeeping(c *engine.Ctx, rule string) {
+	c.Rule(rule, "Manager.Acquire stores its own result into the reservation's Port; all Acquire/Release calls of one proxy or group type use one and the same port-manager field, of the type's protocol")
+	p := c.P
+	n := 0
+	portF := field(c, "server/ports", "PortCtx", "Port")
+	acq := fn(c, "server/ports.Manager.Acquire")
+	if portF != nil && acq != nil {
+		// the cell (or value) of result 0
+		var resCell *ssa.Alloc
+		var resVals []ssa.Value
+		engine.ForEachInstr(acq, func(in ssa.Instruction) {
+			if r, ok := in.(*ssa.Return); ok && len(r.Results) > 0 {
+				resVals = append(resVals, r.Results[0])
+				if u, ok := r.Results[0].(*ssa.UnOp); ok && u.Op == token.MUL {
+					if al, ok := u.X.(*ssa.Alloc); ok {
+						resCell = al
+					}
+				}
+			}
+		})
+		for _, g := range append([]*ssa.Function{acq}, allAnon(acq)...) {
+			engine.ForEachInstr(g, func(in ssa.Instruction) {
+				st, ok := in.(*ssa.Store)
+				if !ok {
+					return
+				}
+				if lf, _ := engine.LoadedField(st.Addr); lf != portF {
+					return
+				}
+				n++
+				okv := false
+				if u, ok := st.Val.(*ssa.UnOp); ok && u.Op == token.MUL {
+					switch x := u.X.(type) {
+					case *ssa.Alloc:
+						okv = resCell != nil && x == resCell
+					case *ssa.FreeVar:
+						b := engine.ClosureBinding(x)
+						okv = resCell != nil && b == ssa.Value(resCell)
+					}
+				}
+				for _, rv := range resVals {
+					if engine.SameValue(rv, st.Val) {
+						okv = true
+					}
+				}
+				c.Check(okv, "server/ports.Manager.Acquire>reservation-port", in.Pos(), 1, []string{"stored: " + engine.Describe(st.Val)},
+					"the reservation's Port is the port Acquire grants (its first result), not the requested one")
+			})
+		}
+	}
+	acqO := method(c, "server/ports", "Manager", "Acquire")
+	relO := method(c, "server/ports", "Manager", "Release")
+	if acqO != nil && relO != nil {
+		type use struct {
+			acq, rel map[string]bool
+			pos      token.Pos
+		}
+		byType := map[string]*use{}
+		var order []string
+		for _, f := range p.RepoFuncs() {
+			root := f
+			for root.Parent() != nil {
+				root = root.Parent()
+			}
+			if root.Signature.Recv() == nil || root.Pkg == nil || strings.HasSuffix(root.Pkg.Pkg.Path(), "/server/ports") {
+				continue
+			}
+			rn := engine.NamedOf(root.Signature.Recv().Type())
+			if rn == nil {
+				continue
+			}
+			tn := rn.Obj().Pkg().Name() + "." + rn.Obj().Name()
+			for _, call := range engine.CallsTo(f, acqO, relO) {
+				src := engine.Provenance(engine.CallArgs(call)[0], engine.ProvOpts{NoArgs: true})
+				u := byType[tn]
+				if u == nil {
+					u = &use{acq: map[string]bool{}, rel: map[string]bool{}, pos: call.Pos()}
+					byType[tn] = u
+					order = append(order, tn)
+				}
+				for fv := range src.Fields {
+					if nn := engine.NamedOf(fv.Type()); nn != nil && nn.Obj().Name() == "Manager" && strings.HasSuffix(nn.Obj().Pkg().Path(), "/server/ports") {
+						if engine.SameFunc(engine.CalleeObj(call), acqO) {
+							u.acq[fv.Name()] = true
+						} else {
+							u.rel[fv.Name()] = true
+						}
+					}
+				}
+			}
+		}
+		sort.Strings(order)
+		for _, tn := range order {
+			u := byType[tn]
+			n++
+			all := map[string]bool{}
+			for k := range u.acq {
+				all[k] = true
+			}
+			for k := range u.rel {
+				all[k] = true
+			}
+			names := keysOf(all)
+			okOne := len(names) == 1
+			okProto := true
+			if okOne {
+				isUDPType := strings.Contains(strings.ToUpper(tn), "UDP")
+				isUDPField := strings.Contains(strings.ToUpper(names[0]), "UDP")
+				isTCPField := strings.Contains(strings.ToUpper(names[0]), "TCP")
+				if (isUDPType && isTCPField) || (!isUDPType && isUDPField) {
+					okProto = false
+				}
+			}
+			c.Check(okOne && okProto, tn+">one-port-manager", u.pos, len(u.acq)+len(u.rel), []string{"acquire via " + strings.Join(keysOf(u.acq), ","), "release via " + strings.Join(keysOf(u.rel), ",")},
+				"ports of %s are acquired and released through one manager of its protocol (managers used: %s)", tn, strings.Join(names, ","))
+		}
+	}
+	c.Floor(n, 4)
 }
 
 func isMapField(v ssa.Value, f *types.Var) bool {
